@@ -68,13 +68,18 @@ def pick_rows(rng, n, lo=1, frac=.35):
 
 MASK_KINDS_DATA = ['selection', 'NA-value', 'undefined-coordinate', 'selection-NA', 'full-selection', 'empty-selection']
 
-def apply_mask(rng, db, kind, rows=None):
-    """returns (new db, description).  The mask touches only the rows listed (except full/empty selection)."""
+def apply_mask(rng, db, kind, rows=None, aux=None):
+    """returns (new db, description).  The mask touches only the rows listed (except full/empty selection);
+    the description (kind, rows, aux) is enough to apply the same mask again (shrinking)."""
     d = db.copy(); n = d.n
     if rows is None: rows = pick_rows(rng, n)
+    def choice(k, m):
+        nonlocal aux
+        if aux is None or len(aux) <= k: aux = (aux or []) + [rng.randrange(m)]
+        return aux[k] % m
     if kind in ('selection', 'selection-NA', 'full-selection', 'empty-selection'):
         sel = d.col(SEL)
-        if sel is None: sel = [Fraction(1)] * n; d.add(SEL, 0, sel); sel = d.col(SEL)
+        if sel is None: d.add(SEL, 0, [Fraction(1)] * n); sel = d.col(SEL)
         if kind == 'selection':
             for i in rows: sel[i] = Fraction(0)
         elif kind == 'selection-NA':
@@ -86,22 +91,29 @@ def apply_mask(rng, db, kind, rows=None):
             if c[0] == Z:
                 for i in rows: c[2][i] = None
     elif kind == 'NA-one-variable':
-        iv = rng.randrange(d.ncol(Z))
+        iv = choice(0, d.ncol(Z))
         for i in rows: d.col(Z, iv)[i] = None
     elif kind == 'undefined-coordinate':
         nd = d.ncol(X)
-        for i in rows: d.col(X, rng.randrange(nd))[i] = None
+        for k, i in enumerate(rows): d.col(X, choice(k, nd))[i] = None
     elif kind == 'undefined-first-coordinate':
         for i in rows: d.col(X, 0)[i] = None
+    elif kind == 'undefined-other-coordinate':
+        nd = d.ncol(X)
+        for k, i in enumerate(rows): d.col(X, 1 + choice(k, nd - 1))[i] = None
     elif kind == 'undefined-fext':
         nf = d.ncol(F)
-        for i in rows: d.col(F, rng.randrange(nf))[i] = None
+        for k, i in enumerate(rows): d.col(F, choice(k, nf))[i] = None
     elif kind == 'zero-weight':
         w = d.col(W)
-        if w is None: d.add(W, 0, [Fraction(rng.choice([1, 2, 3]), 2) for _ in range(n)]); w = d.col(W)
+        if w is None: d.add(W, 0, [Fraction(1)] * n); w = d.col(W)
         for i in rows: w[i] = Fraction(0)
     else: raise ValueError(kind)
-    return d, {'kind': kind, 'rows': rows}
+    return d, {'kind': kind, 'rows': rows, 'aux': aux}
+
+def apply_masks(db, masks):
+    for m in masks: db, _ = apply_mask(None, db, m['kind'], m['rows'], m.get('aux'))
+    return db
 
 def usable_rows(db, need_coords=True, need_z='any', need_fext=True, need_weight=False):
     act = db.active(); K = []
@@ -254,10 +266,13 @@ def run_kriging(ctx, exe, ncase, found):
     return B, plan
 
 def classify(p, subkey):
-    """key suffix: the kind of masking (for mixed cases the list), refined by what differed when it is not a value"""
-    kinds = sorted(set(m['kind'] + ('@target' if m.get('on') == 'dbout' else '') for m in p['masks'])) or [p['kind']]
-    k = '+'.join(kinds)
-    if subkey in ('masked-target-written', 'pre-existing-variable-modified', 'createReduce', 'status', 'shape'): return k + ':' + subkey
+    """key suffix: the kind(s) of masking responsible.  Values at active targets can only depend on the masks put on the data,
+    what is written at masked targets only on the masks put on the targets."""
+    data = sorted(set(m['kind'] for m in p['masks'] if m.get('on') != 'dbout'))
+    targ = sorted(set(m['kind'] + '@target' for m in p['masks'] if m.get('on') == 'dbout'))
+    if subkey in ('masked-target-written', 'pre-existing-variable-modified'): return '+'.join(targ or data or [p['kind']]) + ':' + subkey
+    k = '+'.join(p.get('culprit') or data or targ or [p['kind']])
+    if subkey in ('status', 'shape'): return k + ':' + subkey
     return k
 
 def run_xvalid(ctx, exe, ncase, found):
